@@ -2,6 +2,7 @@ import Pyunicorn.Model.Proto
 import Pyunicorn.Model.Mpi
 import Pyunicorn.Model.MpiProto
 import Pyunicorn.Generated.ArithC19
+import Pyunicorn.Model.MpiKernels
 /-! Line-protocol driver for C19. -/
 open Pyunicorn Pyunicorn.Proto Pyunicorn.Generated
 
@@ -79,6 +80,22 @@ def answer (toks : List String) : String :=
   | ["split", n, xs] =>
       let parts := MpiProto.arraySplit (nats xs) n.toNat!
       if parts.isEmpty then "-" else join (parts.map showNats) ";"
+  | ["modes", m, which, conds] =>
+      let tc := splitTok conds ";"
+      let tbl := match m, which with
+        | "arenas", "dist" => StructC19.arenas_dist_args
+        | "arenas", "serial" => StructC19.arenas_serial_args
+        | "newman", "dist" => StructC19.newman_dist_args
+        | "newman", "serial" => StructC19.newman_serial_args
+        | "nsinewman", "dist" => StructC19.nsinewman_dist_args
+        | "nsinewman", "serial" => StructC19.nsinewman_serial_args
+        | _, _ => []
+      join (MpiChunk.modesOf tbl tc)
+  | ["kern", "newman", n, s, e, a, v] =>
+      showInts (MpiChunk.newmanChunk n.toNat! (intMat a) (intMat v) s.toNat! e.toNat!)
+  | ["kern", "nsinewman", n, s, e, a, v, w, nae] =>
+      showInts (MpiChunk.nsinewmanChunk n.toNat! (intMat a) (intMat v) (ints w) (intMat nae)
+        s.toNat! e.toNat!)
   | _ => "bad-request"
 
 def main : IO Unit := runDriver answer
